@@ -43,6 +43,19 @@ def kernel_eval(ctx, with_altitude):
     try:
         ev.call_function(f, args)
     except Unsupported as e:
+        from ..expr import RuntimeFailure
+        if isinstance(e, RuntimeFailure) and not ctx.cache.get('ker-bounds-reported'):
+            # an index outside a fixed-size axis: the compiled kernel has no bounds check, so
+            # this is a silent out-of-bounds read or write, not an exception
+            ctx.cache['ker-bounds-reported'] = True
+            ctx.rule('KER-BOUNDS', 'the kernel indexes its arrays inside their fixed trailing '
+                     'dimensions (numba does not check bounds)')
+            wf, wst = getattr(e, 'where', None) or getattr(ev, 'last_stmt', (f, None))
+            ctx.ob('KER-BOUNDS', False, None, 'kernel indexing', f=wf or f, node=wst,
+                   key='bounds', why='the compiled kernel evaluates `%s`: %s%s'
+                                     % (norm_text(wst)[:80] if wst is not None else '?', e,
+                                        ' - without bounds checking this reads or overwrites '
+                                        'neighbouring memory' if 'out of bounds' in str(e) else ''))
         raise AnalysisError('kernel cannot be evaluated symbolically: %s' % e)
     res = (f, ev, pa)
     ctx.cache[key] = res
